@@ -335,14 +335,26 @@ def swap_step(step):
 PLAN_RE = re.compile(r"Bidirectional plan: (\d+) action\(s\), (\d+) conflict\(s\)")
 
 
-def bisync(sb, dry=False, swapped=False, env=None, verbose=False, timeout=60):
+def bisync(sb, dry=False, swapped=False, env=None, verbose=False, timeout=60, spell=None):
+    """spell: the same two directories named another way (trailing slash, `/.`, doubled slash, relative to the cwd):
+    the recorded common state belongs to the pair of directories, not to a spelling of their names."""
     a, b = (sb.B, sb.A) if swapped else (sb.A, sb.B)
+    cwd = None
+    if spell == "slash":
+        a, b = a + "/", b + "/"
+    elif spell == "dot":
+        a, b = a + "/.", b
+    elif spell == "dslash":
+        a, b = os.path.dirname(a) + "//" + os.path.basename(a), os.path.dirname(b) + "/./" + os.path.basename(b)
+    elif spell == "rel":
+        cwd = sb.root
+        a, b = "./" + os.path.relpath(a, sb.root), os.path.relpath(b, sb.root)
     argv = ["bisync", a, b]
     if dry:
         argv.append("--dry-run")
     if verbose:
         argv.append("--verbose")
-    return run(argv, env or sb.env(), timeout=timeout)
+    return run(argv, env or sb.env(), timeout=timeout, cwd=cwd)
 
 
 def completed(r):
@@ -742,7 +754,11 @@ def _c06_worker(args):
                             if ca[p] != cb[p]:
                                 pre_b3[("A", p)] = b3.file(os.path.join(sb.A, p))
                                 pre_b3[("B", p)] = b3.file(os.path.join(sb.B, p))
-                    r = bisync(sb, swapped=swapped)
+                    # the immediate second run names the same directories another way in four histories out of five
+                    spell = [None, "slash", "dot", "dslash", "rel"][idx % 5] if st[0] == "s2" else None
+                    if spell:
+                        cnt("second_runs_with_roots_spelled_differently")
+                    r = bisync(sb, swapped=swapped, spell=spell)
                     post = sb.snaps()
                     note_losers(sb, pre, post)
                     info = {"pre": pre, "post": post, "pre_arch": pre_arch, "post_arch": sb.archive_bytes(), "result": r, "completed": completed(r), "stepno": i, "last_common": dict(last_common), "dry": False, "timed_out": r.timed_out, "pre_b3": pre_b3}
